@@ -795,9 +795,13 @@ def minimise(env: Env, case: dict[str, Any], fp: str, budget_evals: int = 300) -
 
     budget = [budget_evals]
 
+    import time as _time
+
+    deadline = _time.time() + float(os.environ.get("VERIF_MINIMISE_BUDGET_S", "150"))
+
     def fails(c: dict[str, Any]) -> bool:
-        if budget[0] <= 0:
-            return False
+        if budget[0] <= 0 or _time.time() > deadline:
+            return False  # out of evaluations or wall-clock: keep the best case found so far
         budget[0] -= 1
         r = env.run(c)
         return r["verdict"] == "violation" and any(v["fingerprint"] == fp for v in r.get("violations", []))
